@@ -9,11 +9,13 @@ from tools.fw import Disagreement, Failure, Report
 ID = "C10"
 PROPS = "Gql.Props.C10"
 DRIVER = "drv_c10"
+EXTRA_TARGETS = ["drv_lex"]
 LEVEL = "proof"
 LEVEL_TEXT = (
     "Lean theorems, for all strings and offsets with no bound: get_location equals the specification's "
-    "line/column (LF, CR LF, CR only), never raises, rendering a location from the same source never "
-    "indexes out of range, location_offset arithmetic. The model is tied to source.py/print_location.py by "
+    "line/column (LF, CR LF, CR only), never raises, every token the lexer returns carries the true line "
+    "and column of its start (through every lexer branch incl. block strings), rendering a location from the "
+    "same source never indexes out of range and excerpts the named line, location_offset arithmetic. The model is tied to source.py/print_location.py by "
     "an exhaustive correspondence run (all strings <= 4 quick / <= 6 thorough over the property's 11-symbol "
     "alphabet x all offsets); token line/column and syntax-error locations are checked on the implementation "
     "against the Lean spec (oracle) on the same space."
@@ -21,14 +23,18 @@ LEVEL_TEXT = (
 LEVEL_NOTE = (
     "Trusted: Lean kernel; hand-written model Gql/Text/Location.lean (tied by correspondence, not by "
     "translation); harness. Lexer line bookkeeping (token_linecol) is covered by the implementation-side "
-    "oracle here and by the lexer model of C09; offsets strictly inside a CR LF pair are outside the statement."
+    "theorem lexAll_line about the lexer model (tied by correspondence on the same space) and additionally by the "
+    "implementation-side oracle; offsets strictly inside a CR LF pair are outside the statement."
 )
 TRUSTED = [
     "hand-written Lean model Gql/Text/Location.lean of Source.get_location and of the line "
     "selection/number arithmetic of print_source_location; tied to the code by the "
     "correspondence run below (every (string, offset) pair of the enumerated space)",
-    "Lexer token line/column and error locations are checked on the implementation against the "
-    "Lean spec Spec.lineCol through the driver (oracle), not proved in this module",
+    "hand-written Lean model Gql/Text/Lexer.lean of lexer.py (index-based, crash-faithful); the token "
+    "line/column theorem lexAll_line is about it; tied to the code by comparing the model's token list "
+    "(kind, span, line, column, value) with the implementation's on every enumerated/generated string",
+    "locations of validation/execution errors are derived by GraphQLError from node start offsets through "
+    "get_location (modelled); that derivation itself is checked on the implementation only",
 ]
 ASSUMPTIONS = [
     "offsets strictly between a CR and its LF are outside the statement (only: no exception, line >= 1)",
@@ -99,6 +105,17 @@ def _work(args):
             lines.append(f"spec {p} {c}")
             meta.append(("spec", body, p))
     outs = driver.run(lines) if driver else [None] * len(lines)
+    # lexer model correspondence (the token line/column theorem is about this model)
+    if driver:
+        from tools import lexcorr
+
+        lexdrv = fw.Driver("drv_lex")
+        mouts = lexcorr.model_lex(lexdrv, bodies)
+        for body, m in zip(bodies, mouts):
+            i = lexcorr.impl_lex(body)
+            rep.evaluations += 1
+            if i != m:
+                rep.disagreements.append(Disagreement("lexer", {"body": body}, i, m))
     spec = {}
     for (kind, body, p), out in zip(meta, outs):
         if out is None:
